@@ -860,10 +860,6 @@ impl<'r> Lowerer<'r> {
 
         let unit_tmp = self.tmp(TyRef::UNIT);
         for expr in list {
-            let list_var = Value::Clone(Place::new(tmp.clone(), ty));
-            let list_var = self.assign_to_var(list_var, ty);
-            self.remove_live_variable(&list_var);
-
             let elem = self.expr(expr);
             let elem_ty = self.type_info.type_of(expr);
             let elem_ty = self.type_info.convert(&elem_ty);
@@ -875,6 +871,14 @@ impl<'r> Lowerer<'r> {
                 elem_ty,
                 elem,
             );
+
+            // The handle that is passed to `push` is cloned after the
+            // element has been evaluated: the callee drops it, so it is not
+            // a live variable, and an early exit in the element expression
+            // would otherwise leak it.
+            let list_var = Value::Clone(Place::new(tmp.clone(), ty));
+            let list_var = self.assign_to_var(list_var, ty);
+            self.remove_live_variable(&list_var);
 
             let func_ref =
                 self.find_method(TypeId::of::<ErasedList>(), "push");
